@@ -159,4 +159,3 @@ func runPivotDisconnect(r *ev.Run) {
 		ts.Close()
 	}
 }
-
